@@ -132,7 +132,11 @@ func (t *Trie) Unsubscribe(ssid Ssid, subscriber Subscriber) {
 // Lookup returns the Subscribers for the given topic.
 func (t *Trie) Lookup(ssid Ssid, filter func(s Subscriber) bool) (subs Subscribers) {
 	subs = newSubscribers()
+	if len(ssid) == 0 {
+		return
+	}
 	t.RLock()
+	defer t.RUnlock()
 
 	t.lookup(ssid, &subs, t.root, filter)
 
@@ -141,8 +145,6 @@ func (t *Trie) Lookup(ssid Ssid, filter func(s Subscriber) bool) (subs Subscribe
 			t.randomByGroup(ssid[1:], &subs, shareNode, filter)
 		}
 	}
-
-	t.RUnlock()
 	return
 }
 
